@@ -5,10 +5,13 @@
    value belongs to: CP state machine, PARAFAC2 with line search, one-value-per-iteration loops) with refutations of the orderings used
    before the repairs; (3) values over the reals (sqrt / abs / division) and the normalisations (cp_normalize, tucker_normalize: transcribed,
    and as executed models with a validated tape of column norms); (4) round 5: error_calc on data with its own branch selection, EVERY
-   entry of the returned lists, loop x algebra for HOOI / tensor ring / PARAFAC2 / non-negative Tucker; (5) non-vacuity Examples. *)
+   entry of the returned lists, loop x algebra for HOOI / tensor ring / PARAFAC2 / non-negative Tucker; (5) non-vacuity Examples;
+   (6) round 7: the parafac loop ON DATA with weights, normalisation and line search; constrained_parafac and HALS iterations on data;
+   the semantic checker of tensor_ring_als's axis bookkeeping. *)
 From Coq Require Import List Arith ZArith Reals Bool Ring Lia Lra.
 From TLV Require Import Base.Shape Base.PyList Base.Tensor Base.BigSum Base.Ops Model.Errors Model.ErrorsR
-     Proofs.ErrorsProofs Proofs.ErrorsSkeleton Proofs.ErrorsSkeletonCP Proofs.ErrorsP2 Proofs.ErrorsTR Proofs.ErrorsReal Proofs.ErrorsLoops Proofs.ErrorsNormalizeR.
+     Proofs.ErrorsProofs Proofs.ErrorsSkeleton Proofs.ErrorsSkeletonCP Proofs.ErrorsP2 Proofs.ErrorsTR Proofs.ErrorsReal Proofs.ErrorsLoops Proofs.ErrorsNormalizeR
+     Proofs.ErrorsDataLoop Proofs.ErrorsDataLoopR.
 Import ListNotations.
 
 (* squared-error expansion over an arbitrary index space:  sum (X - Y)^2 = sum X^2 + sum Y^2 - 2 sum X Y *)
@@ -643,6 +646,139 @@ Example C06_round6_nonvacuous :
    let solve := fun (m : nat) (_ : tensor Z) (cur : list (tensor Z)) => nth m fs (mk [] []) in
    fst (parafac_iteration_error Zops solve X 2 (Some [2;3]%Z) None [0;1;2] [mk [2;2] [0;0;0;0]%Z; mk [3;2] [1;1;1;1;1;1]%Z; mk [2;2] [5;5;5;5]%Z]) = 296%Z).
 Proof. split; [apply finite_report_of_nonneg; lra | vm_compute; reflexivity]. Qed.
+
+(* ---- round 7 ----
+   The parafac loop ON DATA with weights, end-of-iteration normalisation and line search (Model/Errors.v:fl_loop; no mask): state =
+   (weights, factors); each iteration takes the line-search snapshot on even iterations, sweeps the modes with the MTTKRP of the
+   current weights / factors (arbitrary solve oracle), then either calls error_calc with the remembered MTTKRP, or - on a line-search
+   iteration - evaluates the candidate of an arbitrary extrapolation oracle explicitly and keeps it if an arbitrary acceptance oracle
+   (seeing the candidate's value and the history) says so, else falls back to error_calc with the remembered MTTKRP; the value is
+   recorded; an arbitrary stop oracle (seeing the history) may end the run; the state is normalised (arbitrary oracle) at the end of
+   the iteration, also on the exits.  For EVERY such oracle family EVERY recorded value is the explicit squared residual (minus the
+   sparse component the model computes itself when sparsity is set; and the squared norm) of the state it was computed for, and the
+   returned state is the last end-of-iteration state.  Hypotheses on shapes only: the extrapolation and the normalisation keep one
+   factor per mode. *)
+Theorem C06_parafac_full_loop_on_data_reports_true_errors : forall (F : Type) (Op : fops F),
+  ring_theory (f0 Op) (f1 Op) (fadd Op) (fmul Op) (fsub Op) (fopp Op) (@eq F) ->
+  forall (Or : @floracle F) (X : tensor F) (R : nat) (card : option nat) (ms : list nat) (linesearch normalize : bool),
+  0 < length (shape X) -> (ms = [] \/ last ms 0 = length (shape X) - 1) ->
+  (forall it a b, fl_wf X a -> fl_wf X b -> fl_wf X (fl_jump Or it a b)) ->
+  (normalize = true -> forall st, fl_wf X st -> fl_wf X (fl_norm Or st)) ->
+  forall n it st snap errs, fl_wf X st -> fl_wf X snap ->
+  snd (fl_loop Op Or X R card ms linesearch normalize n it st snap errs)
+  = errs ++ map (fl_true_err Op X R card) (fl_states Op Or X R card ms linesearch normalize false n it st snap errs) /\
+  fst (fl_loop Op Or X R card ms linesearch normalize n it st snap errs)
+  = last (fl_states Op Or X R card ms linesearch normalize true n it st snap errs) st /\
+  length (fl_states Op Or X R card ms linesearch normalize true n it st snap errs)
+  = length (fl_states Op Or X R card ms linesearch normalize false n it st snap errs).
+Proof. exact @fl_loop_reports_true_errors. Qed.
+Print Assumptions C06_parafac_full_loop_on_data_reports_true_errors.
+(* ... and when the normalisation keeps every in-range entry of the represented tensor, each value is ALSO the explicit residual of the
+   state at the END of its iteration: entry j of the list is the error of the state a run stopped after iteration j returns *)
+Theorem C06_parafac_full_loop_reports_errors_of_returned_states : forall (F : Type) (Op : fops F),
+  ring_theory (f0 Op) (f1 Op) (fadd Op) (fmul Op) (fsub Op) (fopp Op) (@eq F) ->
+  forall (Or : @floracle F) (X : tensor F) (R : nat) (card : option nat) (ms : list nat) (linesearch normalize : bool),
+  0 < length (shape X) -> (ms = [] \/ last ms 0 = length (shape X) - 1) ->
+  (forall it a b, fl_wf X a -> fl_wf X b -> fl_wf X (fl_jump Or it a b)) ->
+  (normalize = true -> forall st, fl_wf X st -> fl_wf X (fl_norm Or st)) ->
+  (normalize = true -> forall st, fl_wf X st -> same_tensor Op X R (fl_norm Or st) st) ->
+  forall n it st snap errs, fl_wf X st -> fl_wf X snap ->
+  snd (fl_loop Op Or X R card ms linesearch normalize n it st snap errs)
+  = errs ++ map (fl_true_err Op X R card) (fl_states Op Or X R card ms linesearch normalize true n it st snap errs) /\
+  fst (fl_loop Op Or X R card ms linesearch normalize n it st snap errs)
+  = last (fl_states Op Or X R card ms linesearch normalize true n it st snap errs) st.
+Proof. exact @fl_loop_reports_errors_of_returned_states. Qed.
+Print Assumptions C06_parafac_full_loop_reports_errors_of_returned_states.
+(* cp_normalize on (weights, factors) GIVEN AS DATA over the reals - the step-by-step transcription of C06_cp_normalize_preserves_error
+   between blocks_of and data_of_blocks - keeps one factor per mode and EVERY in-range entry of the represented tensor (zero columns,
+   zero and negative incoming weights included) *)
+Theorem C06_cp_normalize_on_data_keeps_every_entry : forall (X : tensor R) (Rk : nat) (st : @cpstate R),
+  (0 < length (shape X))%nat -> length (snd st) = length (shape X) ->
+  length (snd (cp_normalize_data_R (shape X) Rk st)) = length (shape X) /\
+  forall idx, inb (shape X) idx ->
+    cp_tensor_entry Rops Rk (fst (cp_normalize_data_R (shape X) Rk st)) (snd (cp_normalize_data_R (shape X) Rk st)) idx
+    = cp_tensor_entry Rops Rk (fst st) (snd st) idx.
+Proof. exact cp_normalize_data_R_same_tensor. Qed.
+Print Assumptions C06_cp_normalize_on_data_keeps_every_entry.
+(* the composition: the data-level loop over the reals whose normalisation IS the transcribed cp_normalize and whose extrapolation IS the
+   transcribed rule last + (current - last) * jump (any jump sequence): no hypothesis about normalisation or extrapolation is left *)
+Theorem C06_parafac_full_loop_with_cp_normalize : forall (Orc : @floracle R) (X : tensor R) (Rk : nat) (card : option nat) (ms : list nat)
+        (linesearch normalize : bool),
+  (0 < length (shape X))%nat -> (ms = [] \/ last ms 0%nat = (length (shape X) - 1)%nat) ->
+  (exists jumps : nat -> R, fl_jump Orc = fun it => ls_extrapolate Rops (jumps it)) ->
+  fl_norm Orc = cp_normalize_data_R (shape X) Rk ->
+  forall n it st snap errs, length (snd st) = length (shape X) -> length (snd snap) = length (shape X) ->
+  snd (fl_loop Rops Orc X Rk card ms linesearch normalize n it st snap errs)
+  = errs ++ map (fl_true_err Rops X Rk card) (fl_states Rops Orc X Rk card ms linesearch normalize true n it st snap errs) /\
+  fst (fl_loop Rops Orc X Rk card ms linesearch normalize n it st snap errs)
+  = last (fl_states Rops Orc X Rk card ms linesearch normalize true n it st snap errs) st.
+Proof. exact fl_loop_reports_true_errors_with_cp_normalize. Qed.
+Print Assumptions C06_parafac_full_loop_with_cp_normalize.
+(* constrained_parafac on data: the MTTKRP carries NO weights, the weights multiply the column sums (u = 1, v = w); for every admm
+   oracle the inline shortcut after the sweep is the explicit squared residual of the updated factors, and iterated with any stop
+   oracle every recorded value belongs to the factors at the end of its iteration, the returned factors being the last ones *)
+Theorem C06_constrained_iteration_on_data_reports_true_error : forall (F : Type) (Op : fops F),
+  ring_theory (f0 Op) (f1 Op) (fadd Op) (fmul Op) (fsub Op) (fopp Op) (@eq F) ->
+  forall (solve : nat -> tensor F -> list (tensor F) -> tensor F) (X : tensor F) (R : nat) (w : option (list F)) (ms : list nat) (fs : list (tensor F)),
+  0 < length (shape X) -> length fs = length (shape X) -> (ms = [] \/ last ms 0 = length (shape X) - 1) ->
+  constrained_iteration_error Op solve X R w ms fs = err_cp_true Op X R w (fst (data_sweep Op solve X R None ms fs None)) None None.
+Proof. exact @constrained_iteration_reports_true_error. Qed.
+Print Assumptions C06_constrained_iteration_on_data_reports_true_error.
+Theorem C06_constrained_loop_on_data_reports_true_errors : forall (F : Type) (Op : fops F),
+  ring_theory (f0 Op) (f1 Op) (fadd Op) (fmul Op) (fsub Op) (fopp Op) (@eq F) ->
+  forall (solve : nat -> nat -> tensor F -> list (tensor F) -> tensor F) (stop : nat -> list (F * F) -> bool)
+         (X : tensor F) (R : nat) (w : option (list F)) (ms : list nat),
+  0 < length (shape X) -> (ms = [] \/ last ms 0 = length (shape X) - 1) ->
+  forall n it fs errs, length fs = length (shape X) ->
+  snd (constrained_data_loop Op solve stop X R w ms n it fs errs)
+  = errs ++ map (fun fs_j => err_cp_true Op X R w fs_j None None) (constrained_data_states Op solve stop X R w ms n it fs errs) /\
+  fst (constrained_data_loop Op solve stop X R w ms n it fs errs) = last (constrained_data_states Op solve stop X R w ms n it fs errs) fs.
+Proof. exact @constrained_data_loop_reports_true_errors. Qed.
+Print Assumptions C06_constrained_loop_on_data_reports_true_errors.
+(* non_negative_parafac_hals on data (no normalisation inside the sweep): the weighted MTTKRP of the last UPDATED mode paired with that
+   mode's factor - any modes list whose last entry is a mode of the tensor, e.g. the last mode fixed *)
+Theorem C06_hals_iteration_on_data_reports_true_error : forall (F : Type) (Op : fops F),
+  ring_theory (f0 Op) (f1 Op) (fadd Op) (fmul Op) (fsub Op) (fopp Op) (@eq F) ->
+  forall (solve : nat -> tensor F -> list (tensor F) -> tensor F) (X : tensor F) (R : nat) (w : option (list F)) (ms : list nat) (fs : list (tensor F)),
+  length fs = length (shape X) -> (ms = [] \/ last ms 0 < length (shape X)) ->
+  hals_iteration_error Op solve X R w ms fs = err_cp_true Op X R w (fst (data_sweep Op solve X R w ms fs None)) None None.
+Proof. exact @hals_iteration_reports_true_error. Qed.
+Print Assumptions C06_hals_iteration_on_data_reports_true_error.
+(* the semantic checker of tensor_ring_als's axis bookkeeping is sound: when it answers true for the pieces read off the source (cores
+   of the sub-chain, transposition, row modes, rank indices of the two reshapes, transposition of the solution), the transposed
+   sub-chain has the axes [row modes of the unfolded tensor] ++ [the bonds in the order the solution is reshaped with] and the reshaped,
+   transposed solution has the axes of core dim (bonds modulo N).  The ast tie evaluates it on the regenerated pieces for the orders
+   2..7; the universal statement about the present form of tr_idx is C06_tr_idx_sorts_modes *)
+Theorem C06_tr_bookkeeping_checker_sound : forall N dim chain row_modes tr_perm cols sol_rows sol_perm,
+  tr_bookkeeping_ok N dim chain row_modes tr_perm cols sol_rows sol_perm = true ->
+  permute_axes (chain_axes N chain) tr_perm = map AMode row_modes ++ map (bond N) cols /\
+  permute_axes (map (bond N) sol_rows ++ [AMode dim]) sol_perm = [bond N dim; AMode dim; bond N (dim + 1)] /\
+  map (bond N) cols = map (bond N) sol_rows /\ adjacent N chain = true.
+Proof. exact tr_bookkeeping_ok_sound. Qed.
+Print Assumptions C06_tr_bookkeeping_checker_sound.
+(* non-vacuity of round 7: a 2x2 integer matrix, rank 1, 7 iterations with line search on: the solve oracle answers the MTTKRP itself,
+   the extrapolation is the transcribed rule with jump 2 and is accepted at iteration 6 - the hypotheses of the loop theorem hold
+   (ls_extrapolate keeps one factor per mode), 7 values are recorded, they are the explicit residuals of the end-of-iteration states,
+   and the accepted jump makes the returned state differ from the one returned when the jump is rejected; the model's own pieces of
+   the tensor-ring bookkeeping pass the checker for the orders 2..7; a constrained / HALS iteration computes *)
+Example C06_round7_nonvacuous :
+  let X := mk [2;2] [1;2;3;4]%Z in
+  let st : @cpstate Z := (Some [1%Z], [mk [2;1] [1;1]%Z; mk [2;1] [1;2]%Z]) in
+  let orc := fun acc : bool => @mkFL Z (fun _ _ M _ => M) (fun _ => ls_extrapolate Zops 2%Z) (fun _ _ _ => acc) (fun s => s) (fun _ _ => false) in
+  (forall acc it a b, fl_wf X a -> fl_wf X b -> fl_wf X (fl_jump (orc acc) it a b)) /\
+  length (snd (fl_loop Zops (orc true) X 1 None [0;1] true false 7 0 st st [])) = 7 /\
+  snd (fl_loop Zops (orc true) X 1 None [0;1] true false 7 0 st st [])
+  = map (fl_true_err Zops X 1 None) (fl_states Zops (orc true) X 1 None [0;1] true false true 7 0 st st []) /\
+  fst (fl_loop Zops (orc true) X 1 None [0;1] true false 7 0 st st []) <> fst (fl_loop Zops (orc false) X 1 None [0;1] true false 7 0 st st []) /\
+  forallb (fun N => forallb (fun dim => tr_bookkeeping_model_ok N dim) (seq 0 N)) (seq 2 6) = true /\
+  (let fs := [mk [2;1] [1;1]%Z; mk [2;1] [1;2]%Z] in
+   fst (constrained_iteration_error Zops (fun _ M _ => M) X 1 (Some [2%Z]) [0;1] fs) = fst (err_cp_true Zops X 1 (Some [2%Z]) (fst (data_sweep Zops (fun _ M _ => M) X 1 None [0;1] fs None)) None None) /\
+   fst (hals_iteration_error Zops (fun _ M _ => M) X 1 (Some [2%Z]) [1;0] fs) = fst (err_cp_true Zops X 1 (Some [2%Z]) (fst (data_sweep Zops (fun _ M _ => M) X 1 (Some [2%Z]) [1;0] fs None)) None None)).
+Proof.
+  cbv zeta. split; [intros acc it a b Ha Hb; cbn [fl_jump]; now apply ls_extrapolate_wf|].
+  split; [vm_compute; reflexivity|]. split; [vm_compute; reflexivity|].
+  split; [vm_compute; intros H; discriminate H|]. split; [exact tr_bookkeeping_model_ok_sample|]. split; vm_compute; reflexivity.
+Qed.
 
 (* ---- non-vacuity: the hypotheses are satisfiable and the model computes *)
 Example C06_ring_Z : ring_theory (f0 Zops) (f1 Zops) (fadd Zops) (fmul Zops) (fsub Zops) (fopp Zops) (@eq Z).
